@@ -18,13 +18,11 @@ def must(E, p, c):
     return not E.feasible(p.cond, z3.Not(c))
 
 
-def run(res, tier):
-    E = mprop.engine(res)
-    res.extra.setdefault("source_files_sha256", {}).update(mprop.source_hashes(["src/engine.rs", "src/store.rs"]))
+def check_tal_task(res, E, visits, only_gating=False):
+    """obligations on Run::process_tal_task with load_ta inlined; only_gating: report just the process_ta gating (used by C01)."""
     body = E.prog.find("src/engine.rs", "Run", "process_tal_task")
     res.functions += ["routinator::engine::Run::process_tal_task (MIR, %d blocks)" % len(body.blocks),
                       "routinator::engine::Run::load_ta (MIR, inlined)"]
-    visits = 3 if tier == "quick" else 4
     run_fields = mir.struct_fields("Run", "src/engine.rs")
     selfp = mir.Opq("&engine::Run", "self")
     initial = z3.Bool("initial")
@@ -53,7 +51,7 @@ def run(res, tier):
                 dec = [x for x, e in enumerate(frame_evs) if e.kind == "call" and re.search(r"Cert::decode$", e.name)]
                 stored = [x for x, e in enumerate(frame_evs) if e.kind == "call" and re.search(r"store::Run::load_ta$", e.name)]
                 coll = [x for x, e in enumerate(frame_evs) if e.kind == "call" and re.search(r"collector::base::Run::load_ta$", e.name)]
-                if upd:
+                if upd and not only_gating:
                     ok = False
                     if dec and dec[0] < upd[0]:
                         d = disc_of(E, p, frame_evs[dec[0]])
@@ -66,7 +64,7 @@ def run(res, tier):
                     if coll and not (coll[0] < upd[0]):
                         res.inconclusive.append("path %d: update_ta before download" % i)
                 # when the download path did not return the certificate, the stored copy is consulted
-                if j < len(evs):
+                if j < len(evs) and not only_gating:
                     returned_download = bool(upd) and not stored
                     if not returned_download and not stored:
                         # maybe update_ta failed (Err propagates) - then ret is Err
@@ -119,6 +117,8 @@ def run(res, tier):
             exhausted = p.has(r"Iterator::next$")
             if exhausted and d is not None:
                 n_none += 1
+                if only_gating:
+                    continue
                 early_err = any(e.kind == "call" and re.search(r"store::Run::(update_ta|load_ta)$|ProcessRun::process_ta$", e.name)
                                 for e in evs) and E.feasible(p.cond, d == 1) and not p.has(r"Run::run_failed$")
                 if not early_err:
@@ -129,8 +129,16 @@ def run(res, tier):
                         if not must(E, p, initial) or not must(E, p, d == 1):
                             fn = mprop.write_cex(res, "no_ta_retry_wrong_%d" % i, p, E, "run_failed without initial / without Err")
                             res.violation("mir:no-ta-retry-wrong", "TAL without usable trust anchor: retry signalled outside the initial run", fn)
+    return n_ta, n_none, len(paths)
+
+
+def run(res, tier):
+    E = mprop.engine(res)
+    res.extra.setdefault("source_files_sha256", {}).update(mprop.source_hashes(["src/engine.rs", "src/store.rs"]))
+    visits = 3 if tier == "quick" else 4
+    n_ta, n_none, n_paths = check_tal_task(res, E, visits)
     res.distinct += n_ta + n_none
-    res.extra["paths"] = len(paths)
+    res.extra["paths"] = n_paths
     res.extra["paths_truncated_at_bound"] = E.bound_hits
     res.extra["process_ta_sites_checked"] = n_ta
     res.extra["paths_without_any_ta"] = n_none
